@@ -52,6 +52,12 @@ def check(tier, seed):
             for n in range(0, 6):
                 for g in gen.all_graphs(n): cases.append(gen.graph_tokens(g))
         io = lib.run_lines([exe], cases)
+        # a long history of greedy_fvs calls by ONE thread of ONE process (state surviving between calls; gen.history_plan)
+        import random
+        nshort, nh = len(cases), (70000 if tier == "quick" else 140000)
+        hist = [gen.graph_tokens(g) for g in gen.history_graphs(random.Random(seed * 7919 + 13), nh)]
+        c.extra["long_history_calls"] = nh
+        cases, io = cases + hist, io + lib.run_lines([exe], hist, par=1)
         mcases = []
         for cs, o in zip(cases, io):
             picks = o.split()[1:] if o.startswith("OK") else []
@@ -68,12 +74,14 @@ def check(tier, seed):
             why = judge(cases[i], io[i]); key = why is not None
             if rep.get(key, 0) >= 2: continue
             rep[key] = rep.get(key, 0) + 1
+            hd = {"history": {"seed": seed, "ncalls": nh, "index": i - nshort}} if i >= nshort else {}
             if why:
-                c.violation("greedy_fvs: " + why, {"component": "c13", "case": cases[i], "impl": io[i], "model": mo[i]}, True)
+                c.violation("greedy_fvs: " + why + (" (call %d of a single-thread history of calls)" % (i - nshort + 1) if hd else ""),
+                            dict({"component": "c13", "case": cases[i], "impl": io[i], "model": mo[i]}, **hd), True)
             else:
                 c.violation("correspondence c13 (acceptance: the model does not accept the implementation's output as a complete run: %s); output is still a feedback vertex set" % mo[i][:80],
                             {"component": "c13", "theorem_or_correspondence": "correspondence c13: extracted greedy_fvs replaying harness/c13.cpp output as picks",
-                             "case": cases[i], "impl": io[i], "model": mo[i]}, False)
+                             "case": cases[i], "impl": io[i], "model": mo[i], **hd}, False)
     return c.finish(
         assumptions=["pairing_heap::top returns some element of the heap (which one is the oracle, universally quantified in the theorems)",
                      "termination of the real loop is a runtime fact; the model proves every complete run yields a feedback vertex set and that complete runs exist"],
@@ -86,7 +94,14 @@ def replay(path):
     lib.ensure_model()
     exe, err = lib.build_cpp(name="c13", srcs=["c13.cpp"])
     line = r["case"]
-    i = lib.run_lines([exe], [line], par=1)[0]
+    if "history" in r:       # the failure needs the calls made before it by the same thread: regenerate the stream and run its prefix
+        import random
+        h = r["history"]
+        hist = [gen.graph_tokens(g) for g in gen.history_graphs(random.Random(h["seed"] * 7919 + 13), h["ncalls"])][:h["index"] + 1]
+        assert hist[-1] == line, "history stream not reproducible"
+        i = lib.run_lines([exe], hist, par=1)[-1]
+    else:
+        i = lib.run_lines([exe], [line], par=1)[0]
     picks = i.split()[1:] if i.startswith("OK") else []
     m = lib.run_model("c13", ["%s %d %s" % (line, len(picks), " ".join(picks))], par=1)[0]
     why = judge(line, i)
